@@ -5,20 +5,7 @@ KF_OFF = set(filter(None, os.environ.get("C13_KF_OFF", "").split(",")))   # swit
 SOLVER = os.environ.get("C13_SOLVER", "cadical")
 
 # known-finding defines in force (see findings/*.md); each blocks exactly the described input class
-KF = {
-    "KF_DNS_NAME_END": "dns_msg_sequence_of_labels_get_name_len / 2name: name walk that reaches the end of the message",
-    "KF_DNS_SEQ_END": "SequenceOfLabelsGetSize / ToDomainName: label sequence that reaches the end of the buffer",
-    "KF_DNS_SEQ2NAME_ROOT": "SequenceOfLabelsToDomainName: root name (single null label) writes name[-1]",
-    "KF_DNS_RR_RDLENGTH": "dns_msg_rr_get_data: rdlength read before the RR header is known to be inside the message",
-    "KF_RADIUS_CHK_SHORT": "radius_pkt_chk: fewer than 4 bytes received",
-    "KF_RADIUS_ATTR_OFF_END": "radius_pkt_attr_get_from_offset: offset in the last two bytes of the packet",
-    "KF_HTTP_SKIP_SPWSP_END": "skip_spwsp / skip_spwsp2: nothing but SP/WSP up to the end of the buffer",
-    "KF_HTTP_HDR_REMOVE_END": "http_hdr_val_remove: name match that ends at the end of the block",
-    "KF_HTTP_URL_DECODE_PCT_END": "http_url_decode: '%' in the last two bytes",
-    "KF_HTTP_CHUNKED_SIZE_WRAP": "http_data_decode_chunked: chunk size that wraps the pointer",
-    "KF_SDP_TYPE_GET_END": "sdp_msg_type_get: CRLF in the last three bytes / message shorter than 2 bytes",
-    "KF_TS_AF_LEN": "mpeg2_ts_pkt_is_valid: adaptation field that reaches the end of the packet on a PSI PID",
-}
+KF = {}   # all twelve findings were repaired in /repo (see /verif/known_findings.json); the #ifdef KF_ blocks in the harnesses are dead code now
 
 META = {
     "bounds": "packet/buffer = exactly sized heap object of concrete length L with ALL byte contents symbolic; offsets, counts, types, "
